@@ -132,6 +132,16 @@ def run(ctx):
     # "presets change only the delimiter, -H only adds the column line": the header line is built with the same delimiter
     from . import c03, c05
     c03.header_line_rule(dep(ctx, "C15", "C03"))
+    # "--alt-input only changes the counting source", "--acgt only changes the rendering", "every CLI result equals the
+    # library result": the library routines the options reach must treat them that way
+    from . import c07, c08
+    fcv = ctx.view(c08.COV)
+    if fcv is not None:
+        c08.inputs_rule(dep(ctx, "C15", "C08"), fcv)
+    c08.table_rule(dep(ctx, "C15", "C08"))
+    fmg = ctx.view(c07.MERGE)
+    if fmg is not None:
+        c07.merge_rule(dep(ctx, "C15", "C07"), fmg)
     fb, fm = ctx.view(c05.BATCH), ctx.view(c05.MMAP)
     if fb is not None and fm is not None:
         c05.header_rule(dep(ctx, "C15", "C05"), fb, fm)
